@@ -74,7 +74,8 @@ def shrink_scenario(lines, fails):
     return cur
 
 
-def run(res, prop, note, gen, checker, n_quick, n_thorough, rule, assumptions, validate=True, post=None):
+def run(res, prop, note, gen, checker, n_quick, n_thorough, rule, assumptions, validate=True, post=None,
+        max_validate_events=2500):
     rng = Rng(res.seed).fork(prop.lower())
     proved = vlib.prove(res, prop, extra_targets=RUN_TARGETS)
     if not proved:
@@ -135,7 +136,8 @@ def run(res, prop, note, gen, checker, n_quick, n_thorough, rule, assumptions, v
         post(res, scs, logs, traces)
     # (1) trace validation of the handler model
     if validate and not res.violations:
-        vt = [t for t in traces if t]
+        vt = [t for t in traces if t and len(t.events) <= max_validate_events]
+        res.coverage["traces_too_long_for_replay"] = sum(1 for t in traces if t and len(t.events) > max_validate_events)
         blocks = simlib.validate_traces(prop.lower() + "_tv", vt)
         bad = []
         for t, b in zip(vt, blocks):
